@@ -30,6 +30,7 @@ CT = {
     "int8_t": (8, True), "uint8_t": (8, False), "int16_t": (16, True), "uint16_t": (16, False),
     "int32_t": (32, True), "uint32_t": (32, False), "int64_t": (64, True), "uint64_t": (64, False),
     "int": (32, True), "bint": (32, True), "long": (64, True), "Py_ssize_t": (64, True), "size_t": (64, False),
+    "double": (64, True), "float": (32, True),      # bit containers only: floating-point values are never computed with
 }
 
 
@@ -347,6 +348,10 @@ class Engine:
             return CI(z3.Int2BV(v.z, bits), bits, signed, iv, rng)
         if isinstance(v, PyB):
             return CI(z3.If(v.z, z3.BitVecVal(1, bits), z3.BitVecVal(0, bits)), bits, signed, z3.If(v.z, 1, 0), (0, 1))
+        if isinstance(v, Custom) and hasattr(v.h, "as_bits"):
+            return CI(v.h.as_bits(bits), bits, signed)
+        if isinstance(v, Custom) and hasattr(v.h, "to_int"):
+            return self.conv(v.h.to_int(self, p), bits, signed, p)
         raise Unsupported(f"conv {type(v).__name__} to C int")
 
     @staticmethod
@@ -696,6 +701,8 @@ class Engine:
 
     def s_For(self, st, p):
         spec, ordinal = self.loop_spec(st)
+        if spec is not None and spec.mode == "hook":
+            return spec.inv(self, st, p)          # the proof script treats the loop itself
         it = st.iter
         # range(...) loops
         if isinstance(it, ast.Call) and isinstance(it.func, ast.Name) and it.func.id == "range":
@@ -1244,6 +1251,9 @@ class Engine:
             if isinstance(v, Ptr):
                 ct = self.ctype(base)
                 return Ptr(v.region, v.off, ct if ct else (8, True))
+            if isinstance(v, Custom) and hasattr(v.h, "as_ptr"):
+                q = v.h.as_ptr()
+                return Ptr(q.region, q.off, self.ctype(base) or (8, True))
             if isinstance(v, CI) or isinstance(v, PyI):
                 # an integer used as an address: no region is known to contain it
                 return Ptr(("wild", self.cur_func, node.lineno), self.as_int(v), self.ctype(base) or (8, True))
@@ -1894,6 +1904,8 @@ def _b_isinstance(eng, p, args, kw, node):
     tn = ast.unparse(node.args[1])
     if isinstance(v, Custom) and hasattr(v.h, "isinstance"):
         return [(p, PyB(v.h.isinstance(eng, p, tn)))]
+    if isinstance(v, PyB):
+        return [(p, PyB("bool" in tn or "int" in tn.replace("np.ndarray", "").replace("interval", "")))]
     if isinstance(v, (PyI, CI)):
         return [(p, PyB("int" in tn.replace("np.ndarray", "")))]
     if isinstance(v, Str):
